@@ -2,9 +2,9 @@
    Theorems about the executable model coq/model/Mdl.v (tables regenerated from the source by tools/gen_mdl.py).
    PARTIAL by design: MRV (lxml), float formatting and the grep-based index are covered by the search only. *)
 From Coq Require Import ZArith List String Ascii Bool Lia.
-From Model Require Import PyBase Mdl MdlMap Mrv Stereo.
-From Gen Require Import MdlTables MdlSource.
-From Proofs Require Import MdlProofs MdlV2000 MdlV3000 MdlTail MdlFraming MdlFramingExt MdlMeta MdlFile MdlFileMol MdlFileMol3 MdlRxn MdlFileRxn MdlFileRxn3 MdlSessions MdlEscape MdlSourceTie MdlMapProofs MdlSlices MrvProofs StereoProofs.
+From Model Require Import PyBase Mdl MdlMap MdlMapRxn Mrv Stereo.
+From Gen Require Import MdlTables MdlSource MdlFn.
+From Proofs Require Import MdlProofs MdlV2000 MdlV3000 MdlTail MdlFraming MdlFramingExt MdlMeta MdlFile MdlFileMol MdlFileMol3 MdlRxn MdlFileRxn MdlFileRxn3 MdlSessions MdlEscape MdlSourceTie MdlMapProofs MdlSlices MrvProofs StereoProofs MdlMapRxnProofs MdlFnTie MdlFnTie2 MdlMapRxnGeneral MdlRxnNumbers MdlRxnEmpty MdlFuel MdlFuel2 MdlRxnDrop MdlMapRxnStrict.
 Import ListNotations.
 Open Scope Z_scope.
 Local Notation length := List.length.
@@ -640,6 +640,174 @@ Theorem C11_tie_skipped_exceptions_and_header :
    forall is_buffer append tell_nonzero, rdf_writes_header is_buffer append tell_nonzero = negb append || negb (is_buffer || tell_nonzero)).
 Proof. exact (conj tie_skipped_exceptions tie_header_condition). Qed.
 Print Assumptions C11_tie_skipped_exceptions_and_header.
+
+(* ---- REACTION mapping numbers (model coq/model/MdlMapRxn.v of _mapping.postprocess_parsed_reaction, shared by the RDF V2000 / V3000 and
+        MRV reaction readers): what a written reaction carries -- non-zero numbers, distinct inside each role, the agents sharing none
+        with reactants / products -- comes back unchanged, role by role and molecule by molecule, with nothing logged ---- *)
+Theorem C11_pp_reaction_written : forall ig R P G,
+  NoDup (concat R) -> NoDup (concat P) -> NoDup (concat G) ->
+  Forall (fun m => m <> 0) (concat R) -> Forall (fun m => m <> 0) (concat P) -> Forall (fun m => m <> 0) (concat G) ->
+  (forall x, In x (concat G) -> ~ In x (concat R ++ concat P)) ->
+  pp_reaction false ig (map (map Some) R) (map (map Some) P) (map (map Some) G)
+  = Ok (mk_pprr R P G 0%nat (repeat 0%nat (length R) ++ repeat 0%nat (length P) ++ repeat 0%nat (length G))).
+Proof. exact pp_reaction_written. Qed.
+Print Assumptions C11_pp_reaction_written.
+Theorem C11_pp_reaction_written_instance :
+  pp_reaction false true [[Some 1; Some 2; Some 3]; [Some 4; Some 5; Some 6; Some 7]] [[Some 4; Some 5; Some 6; Some 3; Some 2; Some 1]; [Some 7]] [[Some 12; Some 9]]
+  = Ok (mk_pprr [[1; 2; 3]; [4; 5; 6; 7]] [[4; 5; 6; 3; 2; 1]; [7]] [[12; 9]] 0%nat [0; 0; 0; 0; 0]%nat).
+Proof. exact pp_reaction_written_instance. Qed.
+Print Assumptions C11_pp_reaction_written_instance.
+
+(* ANY record (ignore=True, remap=False: the readers' defaults): postprocess_parsed_reaction never raises and its result is described
+   exactly by the relations rn (one role, left to right with the counter: a non-zero number not seen before in the role is kept, every
+   other atom takes the counter) and rs (an agent whose number also occurs among the final reactant / product numbers takes the counter);
+   every number of the record is below the first fresh number; numbers are distinct inside every role; the agents share none with
+   reactants / products *)
+Theorem C11_pp_reaction_general : forall R P G,
+  let fR := map map_val (concat R) in let fP := map map_val (concat P) in let fG := map map_val (concat G) in
+  exists rc pr rg0 rg c1 c2 c3 c4 lg ml,
+    pp_reaction false true R P G
+    = Ok (mk_pprr (split_sizes (map (@length _) R) rc) (split_sizes (map (@length _) P) pr) (split_sizes (map (@length _) G) rg) lg ml) /\
+    rn (ppr_start fR fP fG) [] fR rc c1 /\ rn c1 [] fP pr c2 /\ rn c2 [] fG rg0 c3 /\ rs (rc ++ pr) c3 rg0 rg c4 /\
+    (forall x, In x (fR ++ fP ++ fG) -> x < ppr_start fR fP fG) /\
+    NoDup rc /\ NoDup pr /\ NoDup rg /\ (forall x, In x rg -> ~ In x (rc ++ pr)) /\
+    length rc = length fR /\ length pr = length fP /\ length rg = length fG.
+Proof. exact pp_reaction_general. Qed.
+Print Assumptions C11_pp_reaction_general.
+(* user level: every non-zero number of the record is still in its role after reading (an agent's: when no reactant / product atom
+   carries it); distinct inside each role; agents apart *)
+Theorem C11_pp_reaction_preserves : forall R P G,
+  let fR := map map_val (concat R) in let fP := map map_val (concat P) in let fG := map map_val (concat G) in
+  exists r, pp_reaction false true R P G = Ok r /\
+    (forall x, x <> 0 -> In x fR -> In x (concat (ppr_reactants r))) /\
+    (forall x, x <> 0 -> In x fP -> In x (concat (ppr_products r))) /\
+    (forall x, x <> 0 -> In x fG -> ~ In x fR -> ~ In x fP -> In x (concat (ppr_reagents_out r))) /\
+    NoDup (concat (ppr_reactants r)) /\ NoDup (concat (ppr_products r)) /\ NoDup (concat (ppr_reagents_out r)) /\
+    (forall x, In x (concat (ppr_reagents_out r)) -> ~ In x (concat (ppr_reactants r) ++ concat (ppr_products r))).
+Proof. exact pp_reaction_preserves. Qed.
+Print Assumptions C11_pp_reaction_preserves.
+(* non-vacuity: a partially mapped record whose agent carries the number just above the largest reactant / product number: the
+   unmapped atoms get 4 and 5, the agent keeps its 3 *)
+Theorem C11_pp_reaction_general_instance :
+  pp_reaction false true [[Some 1; Some 2; Some 0]] [[Some 2; Some 1; None]] [[Some 3]]
+  = Ok (mk_pprr [[1; 2; 4]] [[2; 1; 5]] [[3]] 0%nat [0; 0; 0]%nat) /\
+  rn 4 [] [1; 2; 0] [1; 2; 4] 5 /\ rn 5 [] [2; 1; 0] [2; 1; 5] 6 /\ rn 6 [] [3] [3] 6 /\ rs ([1; 2; 4] ++ [2; 1; 5]) 6 [3] [3] 6.
+Proof. exact pp_reaction_general_instance. Qed.
+Print Assumptions C11_pp_reaction_general_instance.
+
+(* composed with the reaction block theorems: the atom numbers of a written REACTION come back (RDFWrite / ERDFWrite -> parse_rxn_* ->
+   postprocess_parsed_reaction), role by role and molecule by molecule, in the original order, nothing logged *)
+Theorem C11_rxn_v2000_numbers_roundtrip : forall ig r fr fp fg,
+  Forall2 wf_wmol2 (wr_reactants r) fr -> Forall2 wf_wmol2 (wr_products r) fp -> Forall2 wf_wmol2 (wr_reagents r) fg ->
+  (length (wr_reactants r) <= 999)%nat -> (length (wr_products r) <= 999)%nat -> (length (wr_reagents r) <= 999)%nat ->
+  rxn_mols r <> [] -> rxn_numbers_ok r ->
+  exists lines, rxn_lines_v2000 true r = Ok lines /\
+    forall tail, (do p <- parse_rxn_v2000 (map add_nl lines ++ tail); read_rxn_numbers ig p) = Ok (rxn_numbers_expected r).
+Proof. exact rxn_v2000_numbers_roundtrip. Qed.
+Print Assumptions C11_rxn_v2000_numbers_roundtrip.
+Theorem C11_rxn_v3000_numbers_roundtrip : forall ig r fr fp fg,
+  Forall2 wf_wmol3 (wr_reactants r) fr -> Forall2 wf_wmol3 (wr_products r) fp -> Forall2 wf_wmol3 (wr_reagents r) fg ->
+  rxn_mols r <> [] -> rxn_numbers_ok r ->
+  exists lines, rxn_lines_v3000 true r = Ok lines /\
+    forall tail, (do p <- parse_rxn_v3000 (map add_nl lines ++ tail); read_rxn_numbers ig p) = Ok (rxn_numbers_expected r).
+Proof. exact rxn_v3000_numbers_roundtrip. Qed.
+Print Assumptions C11_rxn_v3000_numbers_roundtrip.
+Theorem C11_rxn_numbers_example :
+  rxn_numbers_ok ex_rxn_numbers /\
+  exists lines, rxn_lines_v2000 true ex_rxn_numbers = Ok lines /\
+    (do p <- parse_rxn_v2000 (map add_nl lines ++ ex_tail); read_rxn_numbers true p) = Ok (mk_pprr [[7; 3; 12]] [[7; 3; 12]] [] 0%nat [0; 0]%nat).
+Proof. exact (conj ex_rxn_numbers_ok rxn_numbers_example). Qed.
+Print Assumptions C11_rxn_numbers_example.
+
+(* a finding: "a reaction record with one EMPTY molecule is read with the other molecules in their roles" is false for RXN V2000 unless the
+   empty molecule is the last one (the search for the next $MOL line assumes at least one atom line); replayed on the real code, recorded as
+   known finding rxn-v2000-empty-molecule-loses-record *)
+Theorem C11_rxn_v2000_empty_molecule_refuted :
+  parse_rxn_v2000 (map add_nl (ex_rxn_head ++ ex_empty_block ++ ex_carbon_block)) = Err ValueError /\
+  roles_of (parse_rxn_v2000 (map add_nl (ex_rxn_head ++ ex_carbon_block ++ ex_empty_block))) = Ok (1, 0, 0, 1)%nat.
+Proof. exact rxn_v2000_empty_molecule_refuted. Qed.
+Print Assumptions C11_rxn_v2000_empty_molecule_refuted.
+
+(* a DROPPED molecule leaves every other molecule in its role: the bookkeeping of the reaction parsers AS TRANSLATED from the source
+   (src_rxn_drop; C11_tie_rxn_loop_drop: the model's loop applies exactly this function), run over the outcomes of the molecules in file
+   order (Some m: parsed, None: dropped) from the counters of the counts line, ends with the counters at the numbers of molecules read
+   per role, so the final slices are the parsed reactants, products and agents -- wherever the dropped molecules stand *)
+Theorem C11_rxn_drop_roles : forall (X : Type) (A P G : list (option X)),
+  let a := Z.of_nat (length A) in let p := Z.of_nat (length P) in let g := Z.of_nat (length G) in
+  let '(mols, rc, pc, gc) := fold_left (drop_step X) (A ++ P ++ G) ([], a, a + p, a + p + g) in
+  mols = somes X A ++ somes X P ++ somes X G /\
+  rc = Z.of_nat (length (somes X A)) /\ pc = rc + Z.of_nat (length (somes X P)) /\ gc = pc + Z.of_nat (length (somes X G)) /\
+  firstn (Z.to_nat rc) mols = somes X A /\ lslice (Z.to_nat rc) (Z.to_nat pc) mols = somes X P /\ skipn (Z.to_nat pc) mols = somes X G.
+Proof. exact rxn_drop_roles. Qed.
+Print Assumptions C11_rxn_drop_roles.
+Theorem C11_rxn_drop_roles_instance :
+  fold_left (drop_step nat) ([Some 1; Some 2] ++ [None; Some 4] ++ [Some 5])%nat ([], 2, 4, 5) = ([1; 2; 4; 5]%nat, 2, 3, 4).
+Proof. exact rxn_drop_roles_instance. Qed.
+Print Assumptions C11_rxn_drop_roles_instance.
+
+(* strict mode (ignore=False): postprocess_parsed_reaction either raises MappingError (a ValueError, nothing else) or returns exactly what
+   the tolerant mode returns, for every record and both settings of remap *)
+Theorem C11_pp_reaction_strict : forall remap R P G,
+  (forall r, pp_reaction remap false R P G = Ok r -> pp_reaction remap true R P G = Ok r) /\
+  (forall e, pp_reaction remap false R P G = Err e -> e = ValueError).
+Proof. exact (fun remap R P G => conj (pp_reaction_strict_refines remap R P G) (pp_reaction_strict_error remap R P G)). Qed.
+Print Assumptions C11_pp_reaction_strict.
+
+(* ---- FUEL SUFFICIENCY: the fuelled functions of the model never decide anything by running out of fuel.  The record iterators, for
+        EVERY file (well-formed or not), every buffer size, every behaviour of the builders; str.replace and the start-tag scanner: any
+        larger fuel gives the same value ---- *)
+Theorem C11_readers_never_out_of_fuel : forall (A : Type) (build_mol : parsed3 -> pyres A) (build_rxn : rparsed -> pyres A) (buffer_size : nat) file,
+  snd (sdf_read A build_mol buffer_size file) <> OutOfFuel /\ snd (rdf_read A build_mol build_rxn buffer_size file) <> OutOfFuel.
+Proof. exact (fun A bm br bs file => conj (sdf_read_never_out_of_fuel A bm bs file) (rdf_read_never_out_of_fuel A bm br bs file)). Qed.
+Print Assumptions C11_readers_never_out_of_fuel.
+Theorem C11_text_fuel_enough :
+  (forall old new s f, (length s < f)%nat -> replace old new s = match old with [] => s | _ => replace_fuel f old new s end) /\
+  (forall l f, (length (render_attrs l) < f)%nat -> cook l = scan_attrs f (render_attrs l)).
+Proof. exact (conj replace_fuel_enough cook_fuel_enough). Qed.
+Print Assumptions C11_text_fuel_enough.
+
+(* ---- tie BY TRANSLATION (Gen.MdlFn, regenerated on every run by tools/gen_mdlfn.py from the STATEMENTS of the source): the role
+        boundaries and the dropped-molecule bookkeeping of parse_rxn_v2000 / parse_rxn_v3000, the per-atom branch chains of
+        postprocess_parsed_molecule and of both passes of postprocess_parsed_reaction, the first fresh number ---- *)
+Theorem C11_tie_rxn_loop_drop : forall pm marker off1 off2 bias data st n start e,
+  find_line marker (skipn (rs_start st + off1) data) (rs_start st + off2) = Some start ->
+  pm (skipn start data) = Err e -> is_value_error e = true ->
+  (forall lm rc pc gc, src_erxn_drop lm rc pc gc = src_rxn_drop lm rc pc gc) /\
+  rxn_loop pm marker off1 off2 bias data st n =
+    let '(rc, pc, gc) := src_rxn_drop (Z.of_nat (length (rs_mols st))) (rs_rc st) (rs_pc st) (rs_gc st) in
+    Ok (mk_rs (start + bias) (rs_mols st) rc pc gc (S (rs_log st))).
+Proof. exact (fun pm marker off1 off2 bias data st n start e H1 H2 H3 => conj tie_rxn_drop_same (tie_rxn_loop_drop pm marker off1 off2 bias data st n start e H1 H2 H3)). Qed.
+Print Assumptions C11_tie_rxn_loop_drop.
+Theorem C11_tie_rxn_v2000_counts : forall data line l1 i0 i1 i2,
+  nth_error data 4 = Some line -> py_int (slice 0 3 line) = Ok i0 -> py_int (slice 3 6 line) = Ok i1 ->
+  (match rstrip (slice_from 6 line) with [] => Ok 0 | t => py_int t end) = Ok i2 -> nth_error data 1 = Some l1 ->
+  parse_rxn_v2000 data =
+    let '(rc, pc, gc) := src_rxn_counts i0 i1 i2 in
+    if gc =? 0 then Err ValueError else
+    if (rc <? 0) || (pc <? rc) || (gc <? pc) then Err OtherError else
+    do st <- foldM (rxn_loop (fun d => lift2 (parse_mol_v2000 d)) (L "$MOL") 5 6 1 data) (nat_range (Z.to_nat gc)) (mk_rs 0 [] rc pc gc 0);
+    rxn_result (title_of l1) st.
+Proof. exact tie_rxn_v2000_counts. Qed.
+Print Assumptions C11_tie_rxn_v2000_counts.
+Theorem C11_tie_rxn_v3000_counts : forall data line l1 t0 t1 rest i0 i1 i2,
+  nth_error data 4 = Some line -> split_ws (slice_from 13 line) = t0 :: t1 :: rest -> py_int t0 = Ok i0 -> py_int t1 = Ok i1 ->
+  (match rest with [t2] => py_int t2 | _ => Ok 0 end) = Ok i2 -> nth_error data 1 = Some l1 ->
+  parse_rxn_v3000 data =
+    let '(rc, pc, gc) := src_erxn_counts (Z.of_nat (length (t0 :: t1 :: rest))) i0 i1 (match rest with [_] => i2 | _ => 0 end) in
+    if gc =? 0 then Err ValueError else
+    if (rc <? 0) || (pc <? rc) || (gc <? pc) then Err OtherError else
+    do st <- foldM (rxn_loop (parse_ctab_v3000 None) (L "M  V30 BEGIN CTAB") 5 5 0 data) (nat_range (Z.to_nat gc)) (mk_rs 1 [] rc pc gc 0);
+    rxn_result (title_of l1) st.
+Proof. exact tie_rxn_v3000_counts. Qed.
+Print Assumptions C11_tie_rxn_v3000_counts.
+Theorem C11_tie_mapping_steps : forall ig,
+  (forall st om, src_ppm_step ig om (pp_next st) (pp_used st) (pp_out st) (pp_log st) = (do s <- pp_step ig st om; Ok (pp_tuple s))) /\
+  (forall st m, src_ppr_step ig m (pp_next st) (pp_used st) (pp_out st) (pp_log st) = (do s <- pp_step ig st (Some m); Ok (pp_tuple s))) /\
+  (forall st om, src_ppr_first_step ig om (m1_used st) (m1_out st) (m1_log st) = (do s <- m1_step ig st om; Ok (m1_used s, m1_out s, m1_log s))) /\
+  (forall reactants products reagents, src_ppr_start reactants products reagents = ppr_start reactants products reagents) /\
+  (forall rc pr rg c l, src_ppr_reagents ig rc pr rg c l = ppr_reagents ig rc pr rg c l).
+Proof. exact (fun ig => conj (tie_ppm_step ig) (conj (tie_ppr_step ig) (conj (tie_ppr_first_step ig) (conj tie_ppr_start (tie_ppr_reagents ig))))). Qed.
+Print Assumptions C11_tie_mapping_steps.
 
 (* ---- the geometric sign functions behind wedge reading / writing (model and lemmas shared with C12) ---- *)
 Theorem C11_pyramid_sign_antisym : forall n u v w,
